@@ -235,6 +235,11 @@ class Closure:
         self.fn, self.ev, self.selfobj = fn, ev, selfobj
         self.outer, self.env = outer, env      # defining function node and the environment it was defined in (free variables)
 
+    def __call__(self, *args, **kw):
+        """called back from an analyser-side model (e.g. a stub integrator applying the rate function it was handed)"""
+        a2 = ([self.selfobj] if self.selfobj is not None else []) + list(args)
+        return self.ev.call_fn(self.fn, a2, kw, Path({}), outer_env=self.env if self.outer is not None else None)
+
 
 class OpaqueFn:
     """callee outside the vocabulary: applications become sympy function atoms keyed by normalised name."""
@@ -1019,7 +1024,11 @@ class SymEval:
 
     def index(self, s, p):
         if isinstance(s, ast.Slice):
-            f = lambda x: None if x is None else int(self.ev(x, p))
+            def f(x):
+                if x is None:
+                    return None
+                v = self.ev(x, p)
+                return None if v is None else int(v)
             return slice(f(s.lower), f(s.upper), f(s.step))
         if isinstance(s, ast.Tuple):
             return tuple(self.index(e, p) for e in s.elts)
